@@ -34,6 +34,7 @@ def main():
             res[sid] = "detected by " + ",".join(det) if det else "NOT DETECTED (was: %s)" % ",".join(props)
         finally:
             sh(["git", "-C", R, "checkout", "--", "."])
+            sh(["python3", os.path.join(V, "tools", "regen.py")])       # Generated/*.lean back to the unpatched tree
         print(sid, res[sid]); sys.stdout.flush()
     bad = [s for s, v in res.items() if not v.startswith("detected")]
     print("%d seeds, %d not detected: %s" % (len(res), len(bad), bad))
